@@ -520,7 +520,7 @@ def selftest_groups(prop, traces, work, seed):
     return out
 
 
-_FLAGS = ("ok", "accept", "admitted", "impl", "same", "identical", "valsEqual", "queriesEqual", "cometOk", "msgOk", "err", "applied", "halted", "errored", "panicked")
+_FLAGS = ("ok", "accept", "admitted", "impl", "again", "same", "identical", "valsEqual", "queriesEqual", "cometOk", "msgOk", "err", "applied", "halted", "errored", "panicked")
 _OBS_EVENTS = ("input", "end", "commit", "reimport", "restart", "abandon", "result", "case", "check", "export", "finalize", "process", "prepare",
                "vote", "accept", "newvoter", "blockmsg", "deposit", "exec", "consolidation")
 
